@@ -127,6 +127,10 @@ type _refHolder struct {
 	destinations []reflect.Value
 
 	value reflect.Value
+
+	// completed is set once every element of the list has been read:
+	// a reference met after that is bound at once instead of being queued
+	completed bool
 }
 
 var _refHolderType = reflect.TypeOf(_refHolder{})
